@@ -37,6 +37,9 @@
 #define H_NL 2
 #endif
 #define H_RING CAT_UNSOLICITED_CMD_BUFFER_SIZE
+#ifndef X_MAXTXT
+#define X_MAXTXT H_BUFSZ   /* expected texts longer than the buffer are refused anyway */
+#endif
 
 #if H_SHARED
 #define H_CAPA ((size_t)(H_BUFSZ >> 1))
